@@ -127,10 +127,10 @@ func (cp *Processor) verifySessionV2(tok sessionv2.Token, v signatureVerificatio
 		return fmt.Errorf("authenticate session token: %w", err)
 	}
 
-	if v.idContainerSet {
-		if !tok.AssertContainer(v.verbV2, v.idContainer) {
-			return errWrongCID
-		}
+	// for container creation there is no ID yet: v.idContainer is zero, and only
+	// contexts for any container apply
+	if !tok.AssertContainer(v.verbV2, v.idContainer) {
+		return errWrongCID
 	}
 
 	if tok.OriginalIssuer() != v.ownerContainer {
